@@ -10,6 +10,85 @@ import json
 import vlib
 
 
+def command_events(ctx):
+    import csv, gzip, io, os
+    bindir = ctx.build_cmds(["obiconvert", "obicsv"])
+    d = ctx.path("c04files")
+    os.makedirs(d, exist_ok=True)
+
+    def mk(name, n, qual):
+        with open(os.path.join(d, name), "w") as f:
+            for k in range(1, n + 1):
+                seq = "".join("acgt"[(k + i) % 4] for i in range(5 + k % 70))
+                if qual:
+                    f.write("@r0_%d\n%s\n+\n%s\n" % (k, seq, "I" * len(seq)))
+                else:
+                    f.write(">r0_%d\n%s\n" % (k, seq))
+        return name
+    conv, ocsv = os.path.join(bindir, "obiconvert"), os.path.join(bindir, "obicsv")
+    jobs, evs = [], []
+    for n in (0, 1, 2, 9, 40):
+        fa, fq = mk("n%d.fa" % n, n, False), mk("n%d.fq" % n, n, True)
+        for z in (0, 1):
+            zopt = ["-Z"] if z else []
+            for cpu, bs in ((1, 1000), (3, 2), (8, 1)):
+                base = ["--max-cpu", str(cpu), "--batch-size", str(bs)] + zopt
+                for fmt, cmd, opts, inp in (("fasta", conv, ["--fasta-output"], fa), ("fastq", conv, ["--fastq-output"], fq),
+                                            ("json", conv, ["--json-output"], fa), ("csv", ocsv, ["--ids", "--count", "--sequence"], fa)):
+                    for how in ("stdout", "file"):
+                        if how == "file" and fmt == "csv":
+                            continue                      # obicsv ignores -o (outside C04)
+                        out = os.path.join(d, "out_%d" % len(jobs))
+                        argv = [cmd] + base + opts + (["-o", out] if how == "file" else []) + [inp]
+                        jobs.append({"argv": argv, "cwd": d})
+                        evs.append({"fmt": fmt, "sizes": [n] if n else [], "workers": cpu, "how": "%s/z%d" % (how, z), "z": z, "outfile": out if how == "file" else "",
+                                    "argv": " ".join(os.path.basename(a) for a in argv), "push": [0] if n else [], "closes": 1, "writeafterclose": 0, "hung": 0})
+    res = ctx.run_many(jobs, timeout=120)
+    # overwrite scenario: a long result, then a shorter one, written to the same path
+    for fmt, opts, big, small, n in (("fasta", ["--fasta-output"], "n40.fa", "n2.fa", 2), ("fastq", ["--fastq-output"], "n40.fq", "n2.fq", 2),
+                                     ("json", ["--json-output"], "n40.fa", "n1.fa", 1)):
+        out = os.path.join(d, "over_" + fmt)
+        r1 = ctx.run_many([{"argv": [conv] + opts + ["-o", out, big], "cwd": d}], timeout=120)[0]
+        r2 = ctx.run_many([{"argv": [conv] + opts + ["-o", out, small], "cwd": d}], timeout=120)[0]
+        res.append(r2)
+        evs.append({"fmt": fmt, "sizes": [n], "workers": 0, "how": "file-overwrite/z0", "z": 0, "outfile": out,
+                    "argv": "obiconvert %s -o F %s ; obiconvert %s -o F %s" % (opts[0], big, opts[0], small), "push": [0],
+                    "closes": 1, "writeafterclose": 0, "hung": 0})
+    for e, r in zip(evs, res):
+        data = r["out"]
+        if e["outfile"]:
+            data = open(e["outfile"], "rb").read() if os.path.exists(e["outfile"]) else b""
+        toks = []
+        if r["timeout"]:
+            e["hung"] = 1
+        elif r["rc"] != 0:
+            toks = ["junk:exit-status-%d" % r["rc"]]
+        else:
+            try:
+                if e["z"]:
+                    data = gzip.decompress(data) if data else b""
+                text = data.decode("utf8")
+                if e["fmt"] == "json":
+                    arr = json.loads(text)
+                    ids = [str(x["id"]) for x in arr]
+                    toks = ["open"] + [t for i, x in enumerate(ids) for t in ((["sep"] if i else []) + [x])] + ["close"]
+                elif e["fmt"] == "csv":
+                    rows = list(csv.reader(io.StringIO(text)))
+                    toks = (["header"] if rows and rows[0][:1] == ["id"] else []) + [r_[0] for r_ in rows[1:]]
+                    if e["sizes"] == [0] and toks == ["header"]:
+                        pass
+                elif e["fmt"] == "fasta":
+                    toks = [l[1:].split()[0] for l in text.splitlines() if l.startswith(">")]
+                else:
+                    lines = text.splitlines()
+                    toks = [lines[i][1:].split()[0] for i in range(0, len(lines), 4)] if len(lines) % 4 == 0 else ["junk:fastq-structure"]
+            except Exception as ex:
+                toks = ["junk:%s" % str(ex)[:80]]
+        e["tokens"] = toks
+        del e["outfile"]
+    return evs
+
+
 def main(ctx):
     thorough = ctx.tier == "thorough"
     if ctx.replay:
@@ -51,6 +130,18 @@ def main(ctx):
                       "run with %d formatting workers rejected by WriterTrace (%s): tokens=%s" %
                       (ev["workers"], r["why"], ev["tokens"]), ev)
     ctx.samples.append({"trace_event": events[0]})
+
+    # the real commands: stdout (the writer does not own the stream) and -o FILE, plain and gzip-compressed (-Z),
+    # and a second run writing a SHORTER result over an existing file; decoded outputs go through the same trace spec
+    cmd_events = command_events(ctx)
+    tr2 = ctx.path("trace_cmd.ndjson")
+    vlib.write_ndjson(tr2, cmd_events)
+    events2, rejects2 = ctx.trace_validate("WriterTrace", "WriterTrace.cfg", tr2)
+    for r in rejects2:
+        ev = events2[r["l"] - 1]
+        ctx.violation("C04.cmd.%s.%s" % (ev["fmt"], r["why"]), ev["how"],
+                      "%s: decoded output rejected by WriterTrace (%s): tokens=%s" % (ev["argv"], r["why"], ev["tokens"][:12]), ev)
+    ctx.samples.append({"command_event": {k: cmd_events[0][k] for k in ("argv", "how", "tokens")}})
     ctx.assumptions += [
         "with one formatting worker the arrival order at the writer goroutine equals the push order (unbuffered channels)",
         "batch = (number, record count); record payloads are fixed functions of (batch, rank)",
